@@ -1,5 +1,6 @@
 import ButlerModel.Model.Store
 import ButlerModel.Model.PathNorm
+import ButlerModel.Gen.TemplatePy
 /-! # C01 — a stored dataset reads back as exactly what was stored under it -/
 namespace C01
 open Store
@@ -240,3 +241,48 @@ example : Valid {} [.put 1 7 100 5, .put 2 8 200 5, .remove 1, .put 3 7 300 9] :
   simp [Valid, FreshOp, step, put, remove, List.lookup]
 
 end C01
+
+/-! ### How `FileTemplate.format` writes a field value, as translated from the source on every run (`Gen/TemplatePy.lean`) -/
+namespace C01.Translated
+
+/-- **One loop iteration of `FileTemplate.format` as translated is "append the literal, then the sanitised value"** —
+`PathNorm.sanitizeL` is the sanitisation the model of the templated path (and the refutation `sanitize_not_injective`) uses. -/
+theorem translated_writeField (output literal value spec : List Char) :
+    Gen.TemplatePy.writeField output literal value spec =
+      output ++ literal ++ PathNorm.sanitizeL (spec.contains '/') value := by
+  unfold Gen.TemplatePy.writeField PathNorm.sanitizeL
+  by_cases h : spec.contains '/' = true
+  · simp only [h, if_true, Bool.false_eq_true, if_false, List.map_map]
+    congr 1
+    apply List.map_congr_left
+    intro c _
+    by_cases h1 : c = ' ' <;> simp [h1]
+  · have h' : spec.contains '/' = false := by simpa using h
+    simp only [h', Bool.false_eq_true, if_false, if_true, List.map_map]
+    congr 1
+    apply List.map_congr_left
+    intro c _
+    by_cases h1 : c = ' '
+    · simp [h1]
+    · by_cases h2 : c = '/' <;> simp [h1, h2]
+
+/-- C01-a on the translated code: with the default specification the values `a b`, `a/b` and `a_b` are written identically -/
+theorem translated_collision (output literal : List Char) :
+    Gen.TemplatePy.writeField output literal ['a', ' ', 'b'] [] = Gen.TemplatePy.writeField output literal ['a', '_', 'b'] [] ∧
+    Gen.TemplatePy.writeField output literal ['a', '/', 'b'] [] = Gen.TemplatePy.writeField output literal ['a', '_', 'b'] [] := by
+  simp [translated_writeField, PathNorm.sanitizeL]
+
+/-- what the sanitisation does keep apart: values without blanks and slashes are written as they are -/
+theorem translated_clean_value (output literal value spec : List Char) (h1 : ' ' ∉ value) (h2 : '/' ∉ value) :
+    Gen.TemplatePy.writeField output literal value spec = output ++ literal ++ value := by
+  rw [translated_writeField]
+  congr 1
+  unfold PathNorm.sanitizeL
+  conv => rhs; rw [← List.map_id value]
+  apply List.map_congr_left
+  intro c hc
+  have hc1 : c ≠ ' ' := fun h => h1 (h ▸ hc)
+  have hc2 : c ≠ '/' := fun h => h2 (h ▸ hc)
+  simp [hc1, hc2]
+
+end C01.Translated
